@@ -117,7 +117,12 @@ func NewPool(nSfx int, kt concr.KeyType, perKind int) (*Pool, error) {
 	p := &Pool{Keys: keys, builders: map[int]*concr.Builder{}, reqs: map[string][][]byte{}, Origin: map[string]interface{}{}}
 	for s := 1; s <= nSfx; s++ {
 		sh := concr.Shape{Ty: "C", Nuc: 4, Nrc: 1, Dl: "ok", Win: "none", P: s * 1000, Sfx: "ok", Sig: "ok"}
-		b, err := concr.NewBuilderOrigin(keys, sh, nil, fmt.Sprintf("https://origin-%d.example.com", s))
+		// every second DID carries the optional suffix data property "type"
+		typ := ""
+		if s%2 == 0 {
+			typ = fmt.Sprintf("entity%d", s)
+		}
+		b, err := concr.NewBuilderTyped(keys, sh, nil, fmt.Sprintf("https://origin-%d.example.com", s), typ)
 		if err != nil {
 			return nil, err
 		}
@@ -443,6 +448,14 @@ func (r *Rig) ApplyOpaque(fs *FileSet, class string, variant int) (*Rig, *txn.Si
 		nr.Provider = txnprovider.NewOperationProvider(params, nr.Parser, r.CAS, cp,
 			txnprovider.WithSourceCASURIFormatter(func(uri, source string) (string, error) { return source + ":" + uri, nil }))
 		return nr
+	}
+	alt := strings.HasSuffix(kind, "Alt") && kind != "casfailAlt"
+	if alt {
+		// the primary read fails; the alternate source serves the content
+		kind = strings.TrimSuffix(kind, "Alt")
+		r.CAS.FailURI = uri
+		t.AlternateSources = []string{"missing", "alt"}
+		defer func() { r.CAS.M["alt:"+uri] = r.CAS.M[uri] }()
 	}
 	switch kind {
 	case "oversize":
